@@ -707,6 +707,7 @@ class Generator:
         self._impl_header = None
         self._canary_mods = 0
         self.auto_stub = set(x for x in os.environ.get("VERIF_STUB_FNS", "").split("|") if x)
+        self.no_isolation = set(x for x in os.environ.get("VERIF_NOISOLATE_FNS", "").split("|") if x)
         self.auto_stubbed = []
         for sf in unit.get("specs", []):
             for b in specfile.parse(os.path.join(VERIF, "contracts", sf)):
@@ -972,6 +973,10 @@ class Generator:
             if blk is not None:
                 for a in blk.attrs:
                     self.out.add(a + "\n", {"o": "spec", "f": blk.specfile, "l": blk.line, "fn": fnpath})
+            if not is_canary and fnpath in self.no_isolation and not (blk is not None and any("loop_isolation" in a for a in blk.attrs)):
+                # second opinion after a failed loop obligation (see check): the same function with Verus's loop isolation off, so
+                # that what is known in front of a loop stays known inside it
+                self.out.add("#[verifier::loop_isolation(false)]\n", {"o": "spec", "f": None, "l": 0, "fn": fnpath})
             if is_canary:
                 self.out.add("\n#[allow(dead_code)] #[verifier::rlimit(2)] ", None)
             self._flush(toks, it.a0, it.end, edits, fnpath + ("#canary" if is_canary else ""))
